@@ -158,7 +158,10 @@ func (g *generator) walkObject(schema *openapi3.Schema) (ast.Type, error) {
 		return fields[i].Name < fields[j].Name
 	})
 
-	return ast.NewStruct(fields...), nil
+	def := ast.NewStruct(fields...)
+	def.Default = schema.Default
+
+	return def, nil
 }
 
 func (g *generator) walkArray(schema *openapi3.Schema) (ast.Type, error) {
